@@ -130,7 +130,12 @@ theorem C08_extrapolation_law (alt h z : ℝ) (a : Atmo ℝ) (ha : Atmo.new alt 
       have := base_ratio 0.0019812 288.15 fa z (by norm_num) hTa.ne'
       norm_num at this ⊢
       exact this
-    rw [fn_pow, hz, mul_assoc, ← Real.mul_rpow hpos0.le (div_nonneg hposz.le hpos0.le),
+    have hnn : ¬ ((1.0:ℝ) + (-0.0019812) * (z - fa) / (15 - 0.0019812 * fa + 273.15) < 0.0) := by
+      rw [hz]
+      have := (div_pos hposz hpos0).le
+      have h00 : (0.0:ℝ) = 0 := by norm_num
+      rw [h00]; exact not_lt.mpr this
+    rw [if_neg hnn, fn_pow, hz, mul_assoc, ← Real.mul_rpow hpos0.le (div_nonneg hposz.le hpos0.le),
       mul_div_cancel₀ _ hpos0.ne']
 
 /-- **C08_shortcut** (full): within 30 ft of the station altitude the prediction is the station's own pair. -/
@@ -139,16 +144,30 @@ theorem C08_shortcut (a : Atmo ℝ) (z : ℝ) (hz : |a.a0 - z| < 30) :
   have : |a.a0 - z| < (30.0:ℝ) := by norm_num; exact hz
   simp only [Atmo.densityMachAt, fn_abs, this, if_true]
 
-/-- **C08_outside_shortcut** (full): beyond 30 ft, with a positive power-law base, the predicted density ratio is
-    the station's ratio times `(T0·p(z))/(p0·T(z))` (ideal-gas scaling) and Mach 1 is `20.0467·√T(z)` m/s in fps. -/
-theorem C08_outside_shortcut (a : Atmo ℝ) (z : ℝ) (hz : 30 ≤ |a.a0 - z|) (hb : 0 ≤ a.pressureBase z) :
+/-- **C08_outside_shortcut** (full): beyond 30 ft the predicted density ratio is the station's ratio times
+    `(T0·p(z))/(p0·T(z))` (ideal-gas scaling) and Mach 1 is `20.0467·√T(z)` m/s in fps — at EVERY altitude
+    (the base of the pressure law is clamped at zero, so the prediction never fails). -/
+theorem C08_outside_shortcut (a : Atmo ℝ) (z : ℝ) (hz : 30 ≤ |a.a0 - z|) :
     a.densityMachAt z = some
       (a.densityRatio * (((a.t0 + 273.15) * a.pressureAt z) / (a.p0 * (a.temperatureAt z + 273.15))),
        Real.sqrt (a.temperatureAt z + 273.15) * 20.0467 * 3.2808399) := by
   have h1 : ¬ |a.a0 - z| < (30.0:ℝ) := by norm_num; exact hz
-  have h2 : ¬ a.pressureBase z < (0.0:ℝ) := by norm_num; exact hb
-  simp only [Atmo.densityMachAt, fn_abs, h1, h2, if_false, fpsOf_eq, machK, cDegreesCtoK, cSpeedOfSoundMetric,
+  simp only [Atmo.densityMachAt, fn_abs, h1, if_false, fpsOf_eq, machK, cDegreesCtoK, cSpeedOfSoundMetric,
     fn_sqrt]
+
+/-- **C08_pressure_base_clamped** (full): the base of the barometric power law is never negative, so
+    `math.pow` is never asked for a non-integer power of a negative number. -/
+theorem C08_pressure_base_clamped (a : Atmo ℝ) (z : ℝ) :
+    0 ≤ a.pressureBase z ∧ ∃ r, a.densityMachAt z = some r := by
+  constructor
+  · unfold Atmo.pressureBase
+    simp only
+    split_ifs with h
+    · norm_num
+    · have h00 : (0.0:ℝ) = 0 := by norm_num
+      rw [h00] at h; exact not_lt.mp h
+  · unfold Atmo.densityMachAt
+    split_ifs <;> exact ⟨_, rfl⟩
 
 /-- **C08_vacuum_zero** (full): in a vacuum the density ratio is exactly zero at every altitude. -/
 theorem C08_vacuum_zero (alt : ℝ) (temp : Option ℝ) (a : Atmo ℝ) (ha : Vacuum.new alt temp = .ok a)
